@@ -1,4 +1,5 @@
 import HpoProofs.Similarity
+import HpoProofs.Distance
 /-!
 # C04 — built-in term similarities follow their definitions, symmetric, finite, ≥ 0
 
@@ -447,6 +448,92 @@ theorem C04_self (k : Kind) (ic : ℕ → ℝ) (a : Term) :
     core .graphIc k ic none a a = some 1 ∧ core .jc k ic none a a = some 1 ∧
     core .distance k ic (some 0) a a = some 1 ∧ core .mutation k ic none a a = some 1 :=
   ⟨C04_self_graphic ic a, C04_self_jc ic a, C04_self_distance, C04_self_mutation k a⟩
+
+/-- `distance_to_term` does not depend on the argument order (whenever it returns) -/
+theorem C04_symm_distance (o : Onto) (a b : Term) (ha : Sorted a.allParents) (hb : Sorted b.allParents)
+    (d : Option ℕ) (h : o.distToTerm a b = .ok d) : o.distToTerm b a = .ok d :=
+  Onto.distToTerm_symm o a b ha hb d h
+
+/-- a term is at distance 0 from itself, so Distance through the dispatch scores exactly 1 -/
+theorem C04_self_distance_onto (o : Onto) (k : Kind) (ic : ℕ → ℝ) (a : Term) (r : Option ℝ)
+    (h : builtin o .distance k ic a a = .ok r) : r = some 1 := by
+  obtain ⟨d, hd, hr⟩ := C04_builtin_value o .distance k ic a a r h
+  have := Onto.distToTerm_self o a d (hd rfl)
+  subst this
+  rw [hr]
+  exact C04_self_distance
+
+/-- argument order is irrelevant through the whole dispatch, including the panic checks: if
+`S(a, b)` returns a value then `S(b, a)` returns the same value -/
+theorem C04_symm_builtin (o : Onto) (alg : Alg) (k : Kind) (ic : ℕ → ℝ) (a b : Term)
+    (ha : Sorted a.allParents) (hb : Sorted b.allParents)
+    (hka : Sorted (a.ann k)) (hkb : Sorted (b.ann k)) (r : Option ℝ)
+    (h : builtin o alg k ic a b = .ok r) : builtin o alg k ic b a = .ok r := by
+  have hc : b.allCommonAncestorIds a = a.allCommonAncestorIds b := common_comm b a hb ha
+  have hu : b.unionAncestorIds a = a.unionAncestorIds b := union_comm b a hb ha
+  have hadd : ic b.id + ic a.id = ic a.id + ic b.id := add_comm _ _
+  have hor : bitor (b.ann k) (a.ann k) = bitor (a.ann k) (b.ann k) := bitor_comm' _ _ hkb hka
+  by_cases hid : a.id = b.id
+  · have hid' : b.id = a.id := hid.symm
+    cases alg
+    case distance =>
+      obtain ⟨d, hd, _⟩ := C04_builtin_value o .distance k ic a b r h
+      have hd' := Onto.distToTerm_symm o a b ha hb d (hd rfl)
+      have hd0 := hd rfl
+      simp only [builtin, hd0] at h
+      simp only [builtin, hd']
+      exact h
+    case graphIc =>
+      simp only [builtin, hid', if_true] at h ⊢
+      rw [C04_symm_graphic ic b a hb ha]; simpa [hid] using h
+    case resnik =>
+      simp only [builtin, hc] at h ⊢
+      rw [resnik_comm ic b a hb ha]; exact h
+    case lin =>
+      simp only [builtin, hc, add_eq, hadd] at h ⊢
+      rw [C04_symm_lin ic b a hb ha]; exact h
+    case jc =>
+      simp only [builtin, hid', if_true] at h ⊢
+      rw [C04_symm_jc ic b a hb ha]; simpa [hid] using h
+    case relevance =>
+      simp only [builtin, hc] at h ⊢
+      rw [C04_symm_relevance ic b a hb ha]; exact h
+    case infoCoef =>
+      simp only [builtin, hc] at h ⊢
+      rw [C04_symm_infocoef ic b a hb ha]; exact h
+    case mutation =>
+      simp only [builtin, hid', if_true] at h ⊢
+      rw [C04_symm_mutation k b a hkb hka]; simpa [hid] using h
+  · have hid' : ¬ b.id = a.id := fun e => hid e.symm
+    cases alg
+    case distance =>
+      obtain ⟨d, hd, _⟩ := C04_builtin_value o .distance k ic a b r h
+      have hd' := Onto.distToTerm_symm o a b ha hb d (hd rfl)
+      have hd0 := hd rfl
+      simp only [builtin, hd0] at h
+      simp only [builtin, hd']
+      exact h
+    case graphIc =>
+      simp only [builtin, hid, hid', hc, hu, if_false] at h ⊢
+      rw [C04_symm_graphic ic b a hb ha]; exact h
+    case resnik =>
+      simp only [builtin, hc] at h ⊢
+      rw [resnik_comm ic b a hb ha]; exact h
+    case lin =>
+      simp only [builtin, hc, add_eq, hadd] at h ⊢
+      rw [C04_symm_lin ic b a hb ha]; exact h
+    case jc =>
+      simp only [builtin, hid, hid', hc, if_false] at h ⊢
+      rw [C04_symm_jc ic b a hb ha, Bool.or_comm]; exact h
+    case relevance =>
+      simp only [builtin, hc] at h ⊢
+      rw [C04_symm_relevance ic b a hb ha]; exact h
+    case infoCoef =>
+      simp only [builtin, hc] at h ⊢
+      rw [C04_symm_infocoef ic b a hb ha]; exact h
+    case mutation =>
+      simp only [builtin, hid, hid', hor, if_false] at h ⊢
+      rw [C04_symm_mutation k b a hkb hka]; exact h
 
 /-- `Builtins::new`: every documented name and alias selects its algorithm, anything else fails -/
 theorem C04_dispatch_names :
